@@ -19,16 +19,29 @@ Record entry := mkE { e_rap : bool; e_qos : N; e_ids : list N }.
 Definition collect_each (self : bool) (subs : list sparams) : list entry :=
   flat_map (fun sp => if sp_nl sp && self then [] else [mkE (sp_rap sp) (sp_qos sp) (ids_of sp)]) subs.
 
-(* overlappingSubscribers: the first eligible subscription creates the entry, later ones only raise
-   the granted QoS and add their identifiers *)
+(* overlappingSubscribers: a No-Local subscription is passed over for the session's own publish; of the others the
+   first creates the entry, later ones only raise the granted QoS and add their identifiers *)
 Fixpoint collect_merge (self : bool) (subs : list sparams) (cur : option entry) : option entry :=
   match subs with
   | [] => cur
   | sp :: r =>
+      if sp_nl sp && self then collect_merge self r cur else
       match cur with
       | Some e => collect_merge self r (Some (mkE (e_rap e) (N.max (e_qos e) (sp_qos sp)) (e_ids e ++ ids_of sp)))
-      | None => if sp_nl sp && self then collect_merge self r None
-                else collect_merge self r (Some (mkE (sp_rap sp) (sp_qos sp) (ids_of sp)))
+      | None => collect_merge self r (Some (mkE (sp_rap sp) (sp_qos sp) (ids_of sp)))
+      end
+  end.
+
+(* the merge as it was: No-Local was looked at only while no entry existed - a No-Local subscription visited after
+   another one of the session was merged into the copy of the session's own publish (kept for refute/C08.v) *)
+Fixpoint collect_merge_old (self : bool) (subs : list sparams) (cur : option entry) : option entry :=
+  match subs with
+  | [] => cur
+  | sp :: r =>
+      match cur with
+      | Some e => collect_merge_old self r (Some (mkE (e_rap e) (N.max (e_qos e) (sp_qos sp)) (e_ids e ++ ids_of sp)))
+      | None => if sp_nl sp && self then collect_merge_old self r None
+                else collect_merge_old self r (Some (mkE (sp_rap sp) (sp_qos sp) (ids_of sp)))
       end
   end.
 
